@@ -65,6 +65,7 @@ type VerifiableReader struct {
 	lastVerifyErr           error
 	lastVerifyErrMu         sync.Mutex
 	prohibitVerifyFailure   bool
+	skippedVerify           bool // the reader has been handed out without verification
 	prohibitVerifyFailureMu sync.RWMutex
 
 	closed   bool
@@ -87,6 +88,11 @@ func (vr *VerifiableReader) loadLastVerifyErr() error {
 }
 
 func (vr *VerifiableReader) SkipVerify() Reader {
+	vr.prohibitVerifyFailureMu.Lock()
+	if !vr.r.verify {
+		vr.skippedVerify = true // unverified chunks can be cached from now on
+	}
+	vr.prohibitVerifyFailureMu.Unlock()
 	return vr.r
 }
 
@@ -97,7 +103,12 @@ func (vr *VerifiableReader) VerifyTOC(tocDigest digest.Digest) (Reader, error) {
 	vr.prohibitVerifyFailureMu.Lock()
 	vr.prohibitVerifyFailure = true
 	lastVerifyErr := vr.loadLastVerifyErr()
+	skippedVerify := vr.skippedVerify
 	vr.prohibitVerifyFailureMu.Unlock()
+	if skippedVerify {
+		// The chunk cache can hold chunks that were read without verification.
+		return nil, fmt.Errorf("reader has already been used without verification")
+	}
 	if err := lastVerifyErr; err != nil {
 		return nil, fmt.Errorf("content error occurs during caching contents: %w", err)
 	}
